@@ -151,6 +151,14 @@ def r_case(c):
         cZ(o["init"]["t"]), cZ(o["init"]["birthday"]), q0, r0, f0, clist(txs)))
 
 
+class KindAt(str):
+    """A violation kind that remembers its site (Check.shrink only receives the kind)."""
+    def __new__(cls, kind, site):
+        o = str.__new__(cls, kind)
+        o.site = site
+        return o
+
+
 class C08(Check):
     ID = "C08"
     N_QUICK = 150
@@ -190,7 +198,7 @@ class C08(Check):
     def oracle_kinds(self, case):
         out = []
         for f in case.get("findings") or []:
-            out.append((f["kind"], f["site"]))
+            out.append((KindAt(f["kind"], f["site"]), f["site"]))
         for k in case.get("oracle") or []:
             if "@" not in k:
                 out.append((k, "model"))
@@ -202,8 +210,9 @@ class C08(Check):
 
     def shrink(self, case, kind):
         # cut the history after the transaction at which this divergence first showed
+        site = getattr(kind, "site", None)
         for f in case.get("findings") or []:
-            if f["kind"] == kind and f["tx"] >= 0:
+            if f["kind"] == kind and f["tx"] >= 0 and site in (None, f["site"]):
                 c2 = dict(case)
                 c2["in"] = dict(case["in"], txs=case["in"]["txs"][:f["tx"] + 1])
                 c2["obs"] = dict(case["obs"], txs=case["obs"]["txs"][:f["tx"] + 1])
